@@ -26,8 +26,9 @@ TECHNIQUE = ("model-based testing of operation histories on a fresh POXCore: all
              "fixed pool + Hypothesis-drawn histories, real core run single-threaded under a virtual clock in lock-step with an "
              "independent rendezvous/lifecycle monitor")
 LEVEL_TEXT = ("Exploration by generated histories: every ordered selection of up to 4 (quick) / 5 (thorough) distinct operations "
-              "from a pool of 14 (registrations in both naming forms, declarations with plain / registering / failing callbacks, "
-              "listen_to_dependencies, GoingUp listeners that hold or immediately release a deferral, goUp, release, quit) is run "
+              "from a pool of 15 (registrations in both naming forms, declarations with plain / registering / failing callbacks, "
+              "listen_to_dependencies, GoingUp listeners that hold or immediately release a deferral, goUp, release, a second "
+              "release of an already released deferral, quit) is run "
               "on a fresh POXCore, plus Hypothesis-drawn histories with nested operations inside callbacks and GoingUp handlers; "
               "each is judged by a monitor restating the property (exactly once, never early by the registry contents at call "
               "time, fired by the time the completing call returns, listener wiring counted by raising every component event, "
@@ -36,7 +37,7 @@ LEVEL_TEXT = ("Exploration by generated histories: every ordered selection of up
               "nothing is claimed beyond the explored bounds.")
 LEVEL_NOTE = ("quit's worker thread is replaced by a harness-run callable executed between operations (one legal schedule); "
               "concurrent quit from two threads is outside the property's quantifier and is not explored")
-RULE = ("a case is a history of register / call_when_ready / listen_to_dependencies / GoingUp-listener / goUp / release / quit "
+RULE = ("a case is a history of register / call_when_ready / listen_to_dependencies / GoingUp-listener / goUp / release / re-release / quit "
         "operations with scripted callbacks; it is non-trivial when some declaration's dependencies are completed by a "
         "registration made inside another dependent's callback, or when a GoingUp deferral is taken; distinct by SHA-1 of the "
         "canonical JSON of the case")
@@ -45,12 +46,13 @@ ASSUMPTIONS = [
   "component names are identifiers that do not shadow POXCore attributes; event names contain no underscore; a component name may contain one",
   "callbacks of one declaration that cannot tell declarations apart (same callback, no arguments) are judged as a group (count and never-early by existence of a consistent assignment)",
   "quit() before goUp takes effect when its worker next runs after goUp has begun; the worker is run between history operations",
-  "each deferral is released at most once; goUp is called at most once; GoingUp handlers do not raise",
+  "a deferral may be released again after it has been released (immediately, later, inside GoingUp delivery, after Up): being refused with RuntimeError and being silently ignored are both accepted, only the lifecycle afterwards is judged",
+  "goUp is called at most once; GoingUp handlers do not raise",
   "the order of UpEvent relative to GoingDownEvent/DownEvent (quit while a deferral is outstanding) is not judged",
 ]
 EXHAUSTIVE_SCOPE = {
-  "quick": "all ordered selections without repetition of 1..4 operations from the fixed 14-operation pool (26 404 histories)",
-  "thorough": "all ordered selections without repetition of 1..5 operations from the fixed 14-operation pool (266 644 histories)",
+  "quick": "all ordered selections without repetition of 1..4 operations from the fixed 15-operation pool (35 715 histories)",
+  "thorough": "all ordered selections without repetition of 1..5 operations from the fixed 15-operation pool (396 075 histories)",
 }
 
 NAMES = ["a", "b", "c", "x", "x_y"]
@@ -154,6 +156,7 @@ class RT(object):
     self.flags = set()
     self.decl_no = 0
     self.deferrals = []       # (id, release function) outstanding
+    self.released = []        # (id, release function) already released once
     self.ndeferrals = 0
     self.sink_counts = {}
     self.met_counts = {}
@@ -381,6 +384,9 @@ class RT(object):
         self.flag("deferral-taken")
         if j < len(rel) and rel[j]:
           self.release(did)
+          again = spec.get("again", [])
+          if j < len(again) and again[j]:
+            self.rerelease(len(self.released) - 1)
       self.cb_stack.append(-1)
       try:
         for op in spec.get("ops", ()):
@@ -395,6 +401,7 @@ class RT(object):
     for i, (d, fn) in enumerate(self.deferrals):
       if d == did:
         del self.deferrals[i]
+        self.released.append((d, fn))
         break
     else:
       raise HarnessError("unknown deferral")
@@ -413,6 +420,33 @@ class RT(object):
         self.stop = True
     self.sync()
 
+  def rerelease(self, k):
+    """Release a deferral that has been released before.  Being refused (RuntimeError) and being ignored are
+    both fine; what the lifecycle does afterwards is judged by the monitor."""
+    if not self.released:
+      self.flag("op-skipped-nothing-released-yet")
+      return
+    did, fn = self.released[k % len(self.released)]
+    self.mon.deferral_rereleased(did)
+    where = ("inside-goingup-delivery" if self.mon.in_goingup_delivery else
+             "after-up" if "UpEvent" in self.mon.seen else "before-up")
+    self.flag("duplicate-release-" + where)
+    if not self.mon.outstanding:
+      self.flag("duplicate-release-with-nothing-outstanding")
+    try:
+      fn()
+    except HarnessError:
+      raise
+    except RuntimeError:
+      self.flag("duplicate-release-refused")
+    except Exception as e:
+      if not self.stop:
+        self.exc_violation(e, "release-raised", duplicate=True)
+        self.stop = True
+    else:
+      self.flag("duplicate-release-ignored")
+    self.sync()
+
   # ---------------------------------------------------------------- operations
   def do_op(self, op, nested):
     if self.stop:
@@ -429,6 +463,8 @@ class RT(object):
         self.release(self.deferrals[op.get("k", 0) % len(self.deferrals)][0])
       else:
         self.flag("op-skipped-no-deferral")
+    elif k == "rel2":
+      self.rerelease(op.get("k", 0))
     elif nested:
       raise HarnessError("operation %r is not available inside callbacks" % (k,))
     elif k == "gup":
@@ -814,11 +850,12 @@ def _pool_case(seq):
     {"op": "rel", "k": 0},
     {"op": "reg", "n": A, "how": "single"},
     {"op": "cwr", "w": 3, "deps": [], "form": "set", "arg": "id"},
+    {"op": "rel2", "k": 0},
   ]
   return {"waiters": waiters, "sinks": sinks, "gups": gups, "ops": [pool[i] for i in seq]}
 
 
-POOL_SIZE = 14
+POOL_SIZE = 15
 
 
 def _enum(maxlen):
@@ -844,16 +881,17 @@ def _s_ops(kind):
   ltd = st.fixed_dictionaries({"op": st.just("ltd"), "k": st.integers(0, 2), "extra": st.lists(name, max_size=2),
                                "attrs": st.sampled_from(ATTR_MODES), "extra_form": st.sampled_from(["list", "none", "str"])})
   rel = st.fixed_dictionaries({"op": st.just("rel"), "k": st.integers(0, 3)})
+  rel2 = st.fixed_dictionaries({"op": st.just("rel2"), "k": st.integers(0, 3)})
   if kind == "nested":
-    return st.one_of(reg, reg, reg, reg, cwr, cwr, rel, rel, ltd, ltd, cwr0)
+    return st.one_of(reg, reg, reg, reg, cwr, cwr, rel, rel, ltd, ltd, cwr0, rel2)
   gup = st.fixed_dictionaries({"op": st.just("gup"), "g": st.integers(0, 2), "p": st.sampled_from([0, 0, 5, -3])})
   goup = st.just({"op": "goup"})
   quit_ = st.just({"op": "quit"})
   if kind == "pre":
     return st.one_of(reg, reg, reg, reg, cwr, cwr, cwr, cwr, ltd, ltd, ltd, gup, gup, gup, quit_, cwr0)
   if kind == "post":
-    return st.one_of(rel, rel, rel, rel, reg, reg, reg, reg, cwr, cwr, cwr, ltd, ltd, quit_, cwr0)
-  return st.one_of(reg, reg, reg, reg, cwr, cwr, cwr, cwr, ltd, ltd, gup, gup, goup, goup, rel, rel, quit_, cwr0)
+    return st.one_of(rel, rel, rel, rel, reg, reg, reg, reg, cwr, cwr, cwr, ltd, ltd, quit_, cwr0, rel2, rel2)
+  return st.one_of(reg, reg, reg, reg, cwr, cwr, cwr, cwr, ltd, ltd, gup, gup, goup, goup, rel, rel, quit_, cwr0, rel2)
 
 
 def _strategy(tier):
@@ -865,6 +903,7 @@ def _strategy(tier):
   })
   gup = st.fixed_dictionaries({
     "take": st.sampled_from([0, 1, 1, 2]), "rel": st.lists(st.sampled_from([False, False, True]), min_size=2, max_size=2),
+    "again": st.lists(st.sampled_from([False, False, True]), min_size=2, max_size=2),
     "ops": st.lists(_s_ops("nested"), max_size=2),
   })
   phased = st.tuples(st.lists(_s_ops("pre"), min_size=3, max_size=n), st.lists(_s_ops("post"), min_size=2, max_size=n)).map(
